@@ -121,6 +121,7 @@ def AuxValue.Valid : AuxValue → Prop
   | .arr t vs => vs.length < 4294967296 ∧ ∀ v ∈ vs, t.inRange v
 
 structure Alignment.Valid (nrefs : Nat) (a : Alignment) : Prop where
+  nrefs_lt : nrefs < 2147483648
   refID : -1 ≤ a.refID ∧ a.refID < nrefs
   nextRefID : -1 ≤ a.nextRefID ∧ a.nextRefID < nrefs
   pos : -2147483648 ≤ a.pos ∧ a.pos < 2147483648
@@ -129,7 +130,7 @@ structure Alignment.Valid (nrefs : Nat) (a : Alignment) : Prop where
   mapq : a.mapq < 256
   flag : a.flag < 65536
   name : 1 ≤ a.readName.length ∧ a.readName.length ≤ 254 ∧ 0#8 ∉ a.readName
-  cigar : a.cigar.length ≤ 65535 ∧ ∀ c ∈ a.cigar, c.1 < 268435456 ∧ c.2 < 16
+  cigar : a.cigar.length ≤ 65535 ∧ ∀ c ∈ a.cigar, c.1 < 268435456 ∧ c.2 ≤ 8
   seq : ∀ c ∈ a.seq, c < 16
   qual : ∀ q, a.qual = some q → q.length = a.seq.length
   aux : ∀ tv ∈ a.aux, tv.2.Valid ∧ tv.1.1 ≠ 0#8 ∧ tv.1.2 ≠ 0#8
